@@ -3,10 +3,14 @@
 
    Model (Model/Occ.v): a store (definition, revision); a read-modify-write command is a Read (definition + the tag
    of the current revision) followed by a Write of [edit def_read] carrying a tag; the backend accepts a write iff
-   it carries no tag or the tag of the current revision (the service's rule).  A schedule is a list of command
-   indices (the k-th occurrence of i is command i's k-th step): every list is a schedule respecting the per-command
-   order and every interleaving is such a list.  "Prior histories" = the arbitrary initial store (any definition,
-   any revision).  Blind writers ([Blind], e.g. `env edit --file`) may be interleaved too: "other writers". *)
+   it carries no tag or the tag of the current revision (the service's rule).  A schedule is a list of (command
+   index, fault): the k-th occurrence of i is command i's k-th step, so every list is a schedule respecting the
+   per-command order and every interleaving is such a list.  The fault says what the backend does if that step is an
+   update: nothing special, "commit (if the tag rule allows) but the reply is lost" (5xx / dropped connection), or
+   "refuse with diagnostics, commit nothing" (after which the interactive edit saves again - the text of its next
+   round, with the tag it read at the start - as long as the person presses ENTER).  "Prior histories" = the
+   arbitrary initial store (any definition, any revision).  Blind writers ([Blind], e.g. `env edit --file`) may be
+   interleaved too: "other writers". *)
 From Verif Require Import Base.Bytes Model.Occ Src.SrcOcc Model.OccSrc Proofs.OccProofs.
 
 (* ---- side conditions on the facts read from the Go source on this run, discharged by computation ---- *)
@@ -23,77 +27,126 @@ Proof. exact (conj eq_refl (conj eq_refl (conj eq_refl eq_refl))). Qed.
 Theorem C14_src_commands_send_read_tag : pol_set = SendRead /\ pol_rm = SendRead /\ pol_edit = SendRead.
 Proof. exact (conj eq_refl (conj eq_refl eq_refl)). Qed.
 
-(* ---- the property: ANY definitions type, ANY number of commands with ANY edits, EVERY schedule, EVERY prior
-   history, with blind writers in between ---- *)
+(* retry.go (shouldRetry decides on policy and verb alone; the table and the policy of UpdateEnvironmentWithRevision
+   as read for C20): an update whose reply was lost is NOT sent again *)
+Theorem C14_src_update_not_replayed : occ_should_retry_exact = true /\ update_replayed = false.
+Proof. exact (conj eq_refl eq_refl). Qed.
+
+(* ---- the property: ANY definitions type, ANY number of commands with ANY edits, EVERY schedule with EVERY
+   placement of faults, EVERY prior history, with blind writers in between ---- *)
 Theorem C14_no_lost_update :
   forall (D : Type) (cmds : list (command D)),
-    Forall (fun c => match c with RMW _ SendEmpty => False | _ => True end) cmds ->  (* each command sends the tag it read *)
-    forall (init : store D) (sched : list nat),
+    (* each command sends the tag it read, and does not send an update twice *)
+    Forall (fun c => match c with RMW _ SendRead _ false => True | RMW _ _ _ _ => False | Blind _ => True end) cmds ->
+    forall (init : store D) (sched : list (nat * fault)),
       let fin := run cmds sched (init_state cmds init) in
-      (* every update the backend saw was rejected and changed nothing, or was the command's edit of the definition
-         current at that moment (with the revision advanced by one) *)
+      (* every update the backend saw was not committed and changed nothing, or was the command's edit of the
+         definition current at that moment (with the revision advanced by one) *)
       Forall (event_ok cmds) (st_trace fin)
-      (* the final definition is the fold, in write order, of the edits of the commands in the log ... *)
+      (* the final definition is the fold, in commit order, of the edits of the commands in the log ... *)
       /\ s_def (st_store fin) = replay cmds (st_log fin) (s_def init)
-      (* ... which are, once each, exactly the commands that reported success *)
-      /\ NoDup (st_log fin)
-      /\ (forall i, In i (st_log fin) <-> nth_error (st_ph fin) i = Some (PDone OOk)).
+      (* ... no command committed twice ... *)
+      /\ NoDup (committed fin)
+      (* ... every command that reported success is in it ... *)
+      /\ (forall i, nth_error (st_ph fin) i = Some (PDone OOk) -> In i (committed fin))
+      (* ... and a command in it reported success, or the reply to its update was lost (a plain error: it cannot know);
+         in particular a command that reported a conflict changed nothing *)
+      /\ (forall i, In i (committed fin) ->
+                    nth_error (st_ph fin) i = Some (PDone OOk) \/ nth_error (st_ph fin) i = Some (PDone OLost)).
 Proof. exact no_lost_update. Qed.
 
-(* the same, per step: in any state reachable under any schedule, the write step of a read-modify-write command
-   ends in conflict with the store unchanged, or installs its edit of the LATEST definition, or the command ends
-   for another reason (nothing to write / error) with the store unchanged *)
+Theorem C14_conflict_changed_nothing :
+  forall (D : Type) (cmds : list (command D)),
+    Forall (@tagged D) cmds ->
+    forall (init : store D) (sched : list (nat * fault)) (i : nat) (o : outcome),
+      let fin := run cmds sched (init_state cmds init) in
+      nth_error (st_ph fin) i = Some (PDone o) -> o <> OOk -> o <> OLost -> ~ In i (committed fin).
+Proof. exact conflict_changed_nothing. Qed.
+
+(* the same, per step: in any state reachable under any schedule, the write step of a read-modify-write command,
+   under any fault, leaves the store unchanged and does not end in success (conflict / refused / reply lost / nothing
+   to write / error), or installs its edit of the LATEST definition and ends in success or "reply lost" *)
 Theorem C14_write_step_safe :
   forall (D : Type) (cmds : list (command D)),
     Forall (@tagged D) cmds ->
-    forall (init : store D) (sched : list nat) (i : nat) (edit : D -> eres D) (pol : policy) (d : D) (r : N),
+    forall (init : store D) (sched : list (nat * fault)) (i : nat) (f : fault)
+           (edit : nat -> D -> eres D) (pol : policy) (enters : nat) (rp : bool) (d : D) (r : N) (k : nat),
       let st := run cmds sched (init_state cmds init) in
-      nth_error cmds i = Some (RMW edit pol) ->
-      nth_error (st_ph st) i = Some (PRead d r) ->
-      let st' := step cmds i st in
-      (nth_error (st_ph st') i = Some (PDone OConflict) /\ st_store st' = st_store st)
-      \/ (exists d', nth_error (st_ph st') i = Some (PDone OOk) /\ edit (s_def (st_store st)) = EUpd d'
-                     /\ st_store st' = mkStore d' (s_rev (st_store st) + 1))
-      \/ ((exists o, o <> OOk /\ o <> OConflict /\ nth_error (st_ph st') i = Some (PDone o))
-          /\ st_store st' = st_store st).
+      nth_error cmds i = Some (RMW edit pol enters rp) ->
+      nth_error (st_ph st) i = Some (PRead d r k) ->
+      let st' := step cmds (i, f) st in
+      (st_store st' = st_store st /\ nth_error (st_ph st') i <> Some (PDone OOk))
+      \/ (exists d', edit k (s_def (st_store st)) = EUpd d'
+                     /\ st_store st' = mkStore d' (s_rev (st_store st) + 1)
+                     /\ (nth_error (st_ph st') i = Some (PDone OOk) \/ nth_error (st_ph st') i = Some (PDone OLost))).
 Proof. exact write_step_safe. Qed.
 
 (* the CLI commands as the Go source has them today: any number of `env set` / `env rm <path>` / interactive
-   `env edit` (and `env edit --file` as blind writers), every schedule, every prior history *)
+   `env edit` with any number of ENTER presses (and `env edit --file` as blind writers), every schedule, every
+   placement of faults, every prior history *)
 Theorem C14_no_lost_update_cli :
-  forall (ops : list op) (init : store tree) (sched : list nat),
+  forall (ops : list op) (init : store tree) (sched : list (nat * fault)),
     let cmds := map cli_command ops in
     let fin := run cmds sched (init_state cmds init) in
     Forall (event_ok cmds) (st_trace fin)
     /\ s_def (st_store fin) = replay cmds (st_log fin) (s_def init)
-    /\ NoDup (st_log fin)
-    /\ (forall i, In i (st_log fin) <-> nth_error (st_ph fin) i = Some (PDone OOk)).
-Proof. exact (no_lost_update_cli C14_src_commands_send_read_tag). Qed.
+    /\ NoDup (committed fin)
+    /\ (forall i, nth_error (st_ph fin) i = Some (PDone OOk) -> In i (committed fin))
+    /\ (forall i, In i (committed fin) ->
+                  nth_error (st_ph fin) i = Some (PDone OOk) \/ nth_error (st_ph fin) i = Some (PDone OLost)).
+Proof. exact (no_lost_update_cli C14_src_commands_send_read_tag (proj2 C14_src_update_not_replayed)). Qed.
 
 (* if a command may send an empty tag, the statement is false (why `env edit --file` is outside the property, and why
    dropping the tag anywhere is data loss) *)
-Theorem C14_empty_tag_loses_update_refuted : ~ occ_statement N (fun _ => True).
+Theorem C14_empty_tag_loses_update_refuted :
+  ~ occ_statement N (fun c => match c with RMW _ _ _ true => False | _ => True end).
 Proof. exact empty_tag_loses_update_refuted. Qed.
+
+(* if the client sends an update again after a lost reply, the statement is false even though every command sends
+   the tag it read: the command reports a conflict and its change is in the definition *)
+Theorem C14_replay_after_lost_reply_refuted :
+  ~ occ_statement N (fun c => match c with RMW _ SendEmpty _ _ => False | _ => True end).
+Proof. exact replay_after_lost_reply_refuted. Qed.
 
 (* ---- non-vacuity on concrete data ---- *)
 Definition ex_doc : tree := TNode [("values", TNode [("a", TLeaf "v0")])].
-Definition ex_ops : list op := [OpSet ["b"] (TLeaf "v1"); OpRm ["a"]; OpEdit "c" "w"].
+Definition ex_ops : list op := [OpSet ["b"] (TLeaf "v1"); OpRm ["a"]; OpEdit "c" "w" false 1].
 
 (* three commands, both readers read revision 7 before the first write: the first writer wins, the second is told
    "conflict", the third (which read afterwards) is applied on top *)
 Example C14_example_conflict :
   let cmds := map cli_command ex_ops in
-  let fin := run cmds [0; 1; 0; 1; 2; 2]%nat (init_state cmds (mkStore ex_doc 7)) in
+  let fin := run cmds (no_faults [0; 1; 0; 1; 2; 2]%nat) (init_state cmds (mkStore ex_doc 7)) in
   st_ph fin = [PDone OOk; PDone OConflict; PDone OOk]
-  /\ st_log fin = [0; 2]%nat
+  /\ st_log fin = [(0, 0); (2, 0)]%nat
   /\ st_store fin = mkStore (TNode [("values", TNode [("a", TLeaf "v0"); ("b", TLeaf "v1"); ("c", TLeaf "w")])]) 9.
+Proof. exact (conj eq_refl (conj eq_refl eq_refl)). Qed.
+
+(* faults: the edit's first save is refused with diagnostics, `set b` commits meanwhile but its reply is lost (it ends
+   with a plain error and IS in the log), the edit's second save (ENTER, same tag) is then told "conflict" *)
+Example C14_example_faults :
+  let cmds := map cli_command ex_ops in
+  let fin := run cmds [(2, FNone); (2, FReject); (0, FNone); (0, FLost); (2, FNone)]%nat
+                 (init_state cmds (mkStore ex_doc 7)) in
+  st_ph fin = [PDone OLost; PIdle; PDone OConflict]
+  /\ st_log fin = [(0, 0)]%nat
+  /\ st_store fin = mkStore (TNode [("values", TNode [("a", TLeaf "v0"); ("b", TLeaf "v1")])]) 8.
 Proof. exact (conj eq_refl (conj eq_refl eq_refl)). Qed.
 
 (* the same two first commands with the tag dropped: both report success and `b` is gone *)
 Example C14_example_lost_update_without_tag :
-  let cmds := map (command_of SendEmpty SendEmpty SendEmpty) ex_ops in
-  let fin := run cmds [0; 1; 0; 1]%nat (init_state cmds (mkStore ex_doc 7)) in
+  let cmds := map (command_of SendEmpty SendEmpty SendEmpty false) ex_ops in
+  let fin := run cmds (no_faults [0; 1; 0; 1]%nat) (init_state cmds (mkStore ex_doc 7)) in
   st_ph fin = [PDone OOk; PDone OOk; PIdle]
   /\ s_def (st_store fin) = TNode [("values", TNode [])]
   /\ replay cmds (st_log fin) ex_doc = TNode [("values", TNode [("b", TLeaf "v1")])].
+Proof. exact (conj eq_refl (conj eq_refl eq_refl)). Qed.
+
+(* a replaying client: `set b` is committed, its reply lost, the second sending is refused: "conflict", yet b is there *)
+Example C14_example_replay_reports_conflict_after_commit :
+  let cmds := map (command_of SendRead SendRead SendRead true) ex_ops in
+  let fin := run cmds [(0, FNone); (0, FLost); (0, FNone)]%nat (init_state cmds (mkStore ex_doc 7)) in
+  st_ph fin = [PDone OConflict; PIdle; PIdle]
+  /\ st_log fin = [(0, 0)]%nat
+  /\ s_def (st_store fin) = TNode [("values", TNode [("a", TLeaf "v0"); ("b", TLeaf "v1")])].
 Proof. exact (conj eq_refl (conj eq_refl eq_refl)). Qed.
